@@ -14,7 +14,7 @@ from __future__ import annotations
 
 import ast
 import itertools
-from typing import Dict, List, Optional
+from typing import Dict, List, Optional, Set
 
 import sympy as sp
 
@@ -44,6 +44,10 @@ def run(idx: Index, rep: Report, tier: str):
     check_backend_init_forwarding(idx, rep)
     check_get_backend_options(idx, rep)
     check_qiskit_noise_dict(idx, rep)
+    # expectation values under noise are those of the mixed state the circuit prepares from the caller's initial state: the state-selecting arguments reach every
+    # nested evaluation of the frequency route (the rule of C02, whose noisy branch is the one a noise model selects)
+    from .C02 import check_forwarding as check_state_forwarding
+    check_state_forwarding(idx, rep, tier)
     if tier == "thorough":
         check_other_translators(idx, rep)
 
@@ -328,6 +332,72 @@ def _enclosing_tests(func: FunctionInfo, node: ast.AST) -> List[str]:
     return out
 
 
+CIRCUIT = "tangelo/linq/circuit.py"
+
+
+def gate_selecting_functions(idx: Index) -> Set[str]:
+    """names of the functions / methods of tangelo/linq/circuit.py that return a circuit holding a selection of the input's gates: a comprehension with a
+    condition over `<circuit>._gates`, or (transitively) a call of such a function"""
+    m = idx.module_by_relpath(CIRCUIT)
+    sel: Set[str] = set()
+    for f in m.functions.values():
+        for n in ast.walk(f.node):
+            if isinstance(n, (ast.ListComp, ast.GeneratorExp)) and any(g.ifs and "_gates" in norm(g.iter) for g in n.generators):
+                sel.add(f.node.name)
+    changed = True
+    while changed:
+        changed = False
+        for f in m.functions.values():
+            if f.node.name in sel:
+                continue
+            for n in ast.walk(f.node):
+                if isinstance(n, ast.Call) and ((isinstance(n.func, ast.Name) and n.func.id in sel) or (isinstance(n.func, ast.Attribute) and n.func.attr in sel)):
+                    sel.add(f.node.name)
+                    changed = True
+                    break
+    return sel
+
+
+def _decide_noisy_circuit_argument(idx: Index, rep: Report, f, call: ast.Call):
+    """the circuit a noise model is attached to is the caller's circuit, gate occurrence for gate occurrence: the first argument of the translation is the
+    `source_circuit` parameter (or a copy / a concatenation containing it), not the result of a function that selects gates"""
+    rule = "K8.noisy-circuit-untouched"
+    sel = gate_selecting_functions(idx)
+    if not {"remove_small_rotations", "remove_redundant_gates"} <= sel:
+        raise AnalysisError(f"gate-selecting functions of circuit.py not recognised: {sorted(sel)}")
+    if not call.args:
+        raise AnalysisError(f"{norm(call)[:60]}: no positional circuit argument")
+    x = call.args[0]
+    for _hop in range(4):           # follow a local name to its single definition
+        if isinstance(x, ast.Name) and x.id != "source_circuit":
+            defs = [n for n in own_nodes(f.node) if isinstance(n, ast.Assign) and len(n.targets) == 1 and norm(n.targets[0]) == x.id]
+            if len(defs) != 1:
+                break
+            x = defs[0].value
+        else:
+            break
+
+    def verdict(e) -> Optional[bool]:
+        if isinstance(e, ast.Name) and e.id == "source_circuit":
+            return True
+        if isinstance(e, ast.Call):
+            fn = e.func.id if isinstance(e.func, ast.Name) else (e.func.attr if isinstance(e.func, ast.Attribute) else None)
+            if fn in sel:
+                return False
+            if fn in ("copy", "deepcopy") and (e.args or isinstance(e.func, ast.Attribute)):
+                return verdict(e.args[0] if e.args else e.func.value)
+        if isinstance(e, ast.BinOp) and isinstance(e.op, ast.Add):
+            l, r = verdict(e.left), verdict(e.right)
+            return False if False in (l, r) else (True if True in (l, r) else None)
+        return None
+    v = verdict(x)
+    if v is None:
+        raise AnalysisError(f"{f.ref}: circuit argument of the noisy translation not decidable: {norm(x)[:80]}")
+    rep.decide(v, rule, f, call, text=f"circuit handed to the noisy translation: {norm(call.args[0])[:60]}",
+               what="every occurrence of a noisy gate in the caller's circuit receives its channel: the circuit is translated as given, not after a pass that selects gates",
+               reason=f"`{norm(x)[:80]}` drops gate occurrences (rotations by about a whole period, cancelling pairs) before the channels are attached: those gates' noise is lost")
+
+
 def check_forwarding(idx: Index, rep: Report):
     rule = "K7.noise-forwarding"
     f = idx.function(f"{TCIRQ}::CirqSimulator.simulate_circuit")
@@ -345,6 +415,7 @@ def check_forwarding(idx: Index, rep: Report):
         tests = _enclosing_tests(f, c)
         if has:
             rep.ok(rule, f, c, text=f"translate_c(..., noise_model=self._noise_model) @ {' & '.join(tests)[:60]}", what="the noise model reaches the translation")
+            _decide_noisy_circuit_argument(idx, rep, f, c)
             continue
         noise_free = ("self.n_shots is None" in tests) or ("n_cmeas > 0" in tests and top_guard)
         rep.decide(noise_free, rule, f, c, text=f"translate_c without noise model under [{' & '.join(tests)[:80]}]",
